@@ -194,7 +194,9 @@ type c10Run struct {
 	merges   int
 	ffs      int
 	same     int
-	tainted  bool // a same-merge acceptance happened: the replica's vector no longer represents its seen set
+	tainted  bool // ground truth no longer applicable (see the same-merge branch of a pull)
+	knownHit bool // the last monitor run reported the known same-merge defect
+	sameOK   int  // same-merge acceptances that lost nothing
 	failures int
 }
 
@@ -209,6 +211,7 @@ func (run *c10Run) reprMonitors(kind string, upto int, rep *c10Replica, before, 
 	fail := func(m, sig, detail string) {
 		run.failures++
 		if sig == knownSig {
+			run.knownHit = true
 			// recorded a few times only, so that it cannot crowd other failures out of the recorder's list
 			c10KnownReported++
 			if c10KnownReported > 4 {
@@ -349,7 +352,12 @@ func c10RunHistory(rec *vRecorder, ctx context.Context, stream string, evs []c10
 				}
 				if status != want {
 					run.failures++
-					rec.Fail("conflict_iff_concurrent", fmt.Sprintf("verdict:want%d:got%d", want, status),
+					mon, sig := "conflict_iff_concurrent", fmt.Sprintf("verdict:want%d:got%d", want, status)
+					if known {
+						// a revision the replica has already seen is not reported as already present
+						mon, sig = "known_iff_seen", fmt.Sprintf("seen-revision-not-reported-known:got%d", status)
+					}
+					rec.Fail(mon, sig,
 						map[string]any{"history": evs[:idx+1], "local": c10Desc(rep.hlv), "incoming": c10Desc(inc.hlv), "local_has_seen_incoming_cv": known, "incoming_has_seen_local_cv": incSeenLocal, "same_merge": sameMerge},
 						fmt.Sprintf("IsInConflict returned %d, the version vectors say %d (1 no conflict, 2 conflict, 3 already present)", status, want))
 				}
@@ -370,8 +378,14 @@ func c10RunHistory(rec *vRecorder, ctx context.Context, stream string, evs []c10
 				} else {
 					outcome = "OSameMerge"
 					run.same++
+					run.knownHit = false
 					run.reprMonitors("same-merge", idx, rep, before, inc.hlv)
-					run.tainted = true
+					if run.knownHit {
+						// known finding: the replica's vector no longer represents what it has seen
+						run.tainted = true
+					} else {
+						run.sameOK++ // nothing lost: the ground truth stays applicable, monitoring continues
+					}
 				}
 			case HLVConflict:
 				// resolveDocMergeHLV: floor over both vectors, hlc.Now, MergeWithIncomingHLV on a copy
@@ -683,6 +697,9 @@ func TestVerifC10(t *testing.T) {
 	corpus := [][]c10Ev{
 		// both sides merge the same conflict, then one pulls the other's merge
 		{{Kind: "edit", R: 1}, {Kind: "edit", R: 2}, {Kind: "pull", R: 3, Q: 1}, {Kind: "pull", R: 1, Q: 2}, {Kind: "pull", R: 2, Q: 3}, {Kind: "pull", R: 1, Q: 2}, {Kind: "pull", R: 1, Q: 3}, {Kind: "edit", R: 1}},
+		// both sides merge the same two foreign versions; 1 accepts 2's merge (nothing lost: source 1 is not a merge
+		// version); its own merge revision, held by 3, comes back and must be reported as already present
+		{{Kind: "edit", R: 2}, {Kind: "edit", R: 3}, {Kind: "pull", R: 1, Q: 2}, {Kind: "pull", R: 1, Q: 3}, {Kind: "pull", R: 2, Q: 3}, {Kind: "pull", R: 3, Q: 1}, {Kind: "pull", R: 1, Q: 2}, {Kind: "pull", R: 1, Q: 3}},
 		// edit, replicate, edit on both sides, merge, replicate the merge, edit again
 		{{Kind: "edit", R: 1}, {Kind: "pull", R: 2, Q: 1}, {Kind: "edit", R: 1}, {Kind: "edit", R: 2}, {Kind: "pull", R: 1, Q: 2}, {Kind: "pull", R: 2, Q: 1}, {Kind: "edit", R: 2}, {Kind: "pull", R: 3, Q: 2}, {Kind: "pull", R: 1, Q: 3}, {Kind: "pull", R: 1, Q: 2}},
 		// clocks: physical time far ahead on one replica, restart with the clock behind
@@ -796,6 +813,37 @@ func TestVerifC10(t *testing.T) {
 			}
 		}
 		tally(c10RunHistory(rec, ctx, "random-valid", h, true))
+	}
+	// merge-heavy histories: two replicas resolve the same conflict independently, a third holds a stale copy,
+	// then pulls / edits among the three (one side accepting the other's merge, the stale copy coming back)
+	nMH := vBudget(400, 4000)
+	for i := 0; i < nMH; i++ {
+		perm := [][3]int{{1, 2, 3}, {1, 3, 2}, {2, 1, 3}, {2, 3, 1}, {3, 1, 2}, {3, 2, 1}}[rnd.Intn(6)]
+		x, y, z := perm[0], perm[1], perm[2]
+		var h []c10Ev
+		if rnd.Bool() {
+			// the merging replicas' own sources are among the merged versions
+			h = []c10Ev{{Kind: "edit", R: x}, {Kind: "edit", R: y}, {Kind: "pull", R: z, Q: x}, {Kind: "pull", R: x, Q: y}, {Kind: "pull", R: y, Q: z}}
+		} else {
+			// x merges two foreign versions: its own source is not among the merge versions
+			h = []c10Ev{{Kind: "edit", R: y}, {Kind: "edit", R: z}, {Kind: "pull", R: x, Q: y}, {Kind: "pull", R: x, Q: z}, {Kind: "pull", R: y, Q: z}}
+			if rnd.Bool() {
+				h = append(h, c10Ev{Kind: "pull", R: z, Q: x}) // z now holds a copy of x's merge revision
+			}
+		}
+		for k := 3 + rnd.Intn(4); k > 0; k-- {
+			r := 1 + rnd.Intn(3)
+			if rnd.Chance(85) {
+				q := 1 + rnd.Intn(3)
+				if q == r {
+					q = 1 + (r % 3)
+				}
+				h = append(h, c10Ev{Kind: "pull", R: r, Q: q})
+			} else {
+				h = append(h, c10Ev{Kind: "edit", R: r})
+			}
+		}
+		tally(c10RunHistory(rec, ctx, "merge-heavy", h, true))
 	}
 	rec.Extra("history_merges", totMerges)
 	rec.Extra("history_fast_forwards", totFF)
